@@ -15,7 +15,11 @@ THEOREMS = [
     "BeyondVerif.C15.access_foreign_refused",
     "BeyondVerif.C15.access_slot_sound",
     "BeyondVerif.C15.setForm_unknown_atomic",
+    "BeyondVerif.C15.setForm_unknown_error_atomic",
+    "BeyondVerif.C15.runFormSteps_atomic",
+    "BeyondVerif.C15.formSteps_atomicOrder",
     "BeyondVerif.C15.setForm_error_atomic",
+    "BeyondVerif.C15.setFormX_eq_setForm",
     "BeyondVerif.C15.setFrame_unknown_atomic",
     "BeyondVerif.C15.setFrameBasic_error_atomic",
     "BeyondVerif.C15.setFrameBasic_error_keeps_labels",
@@ -23,6 +27,8 @@ THEOREMS = [
     "BeyondVerif.C15.setFrame_error_atomic",
     "BeyondVerif.C15.setFrame_error_frame",
     "BeyondVerif.C15.stdDeepcopy_separate",
+    "BeyondVerif.C15.copyForm_ok_new",
+    "BeyondVerif.C15.transformObj_separate",
     "BeyondVerif.C15.covSetFrame_error_atomic",
     "BeyondVerif.C15.setFrame_error_cases",
     "BeyondVerif.C15.copy_receiver_unchanged",
@@ -80,7 +86,9 @@ LEVEL_TEXT = ("Lean theorems over an object-graph (heap) model of StateVector/Or
               "(original_mutations_invisible); a covariance built from a list, an ndarray or another covariance gets a new buffer cell and only the owner's own dict is "
               "rewritten (attachCov_result, covFrom_frame); the maneuver getter creates a new list per object (getMans_creates_new); every failing form change and every failing covariance frame change leaves the heap identical, a "
               "failing frame assignment — unknown name, Hill, unreachable centre, missing EOP data, the covariance that has to follow cannot be converted — from ANY form leaves form, frame, _data and every cell but the coordinate buffer "
-              "bit-identical and the buffer untouched or the round trip form->cartesian->form of its content (setFrame_error_atomic, setFrame_error_frame, in full since /repo 45ca5d0); copy.deepcopy writes no old cell and stores only new "
+              "bit-identical and the buffer untouched or the round trip form->cartesian->form of its content (setFrame_error_atomic, setFrame_error_frame, in full since /repo 45ca5d0); a failing FORM change — unknown name or the conversion raising on any leg "
+              "of its route — leaves the heap bit-identical, proved over the order of effects of the setter read from its AST on every run (formSteps_atomicOrder by kernel decide, setForm_error_atomic; setFormX_eq_setForm ties the interpreted order to the "
+              "hand-written setter of the other theorems); the object Frame.transform returns is separate from its argument (transformObj_separate); copy.deepcopy writes no old cell and stores only new "
               "addresses (stdDeepcopy_separate); StateVector->Orbit->StateVector gives back the coordinates, form, frame and every immutable _data entry; name/alias/index resolution decided over the tables "
               "regenerated from beyond.orbits.forms on every run. The model agrees exactly (object-identity partition incl. memory owners of all buffers and cloned Frame objects, labels, error kinds, bit-identical buffers) with the "
               "real classes on random operation sequences.")
@@ -90,6 +98,7 @@ LEVEL_NOTE = ("shared maneuver objects (kept on purpose by the library) are the 
               "up to the intermediate maneuver lists of copy() (stdDeepcopy_separate) and kernel-checked on a witness heap (deepcopy_shares_nothing), not for every heap; heap model hand-written, tied by the correspondence run; Lean kernel + propext/Classical.choice/Quot.sound")
 TECHNIQUE = "Lean 4 proof over an object-graph (heap) model + kernel decide on regenerated name/alias tables; exact model/implementation correspondence"
 TRUSTED = [
+    "harness/props/C15.py form_setter_steps: the order of the effects (convert / store / commit) of StateVector.form.fset read from the AST of statevector.py -> Generated/HeapTables.lean formSetterSteps (an unrecognised statement stops the run as a broken extraction)",
     "harness/props/C15.py extract: Form.param_names, Form.alt, forms._cache, _cache_param_names, the frame registry and the property names of the classes, read from live objects (cross-checked against the Form(...) literals in forms.py) -> Generated/FormTables.lean",
     "correspondence: real StateVector/Orbit/Cov objects vs the compiled Lean model on identical operation sequences; after every operation the whole object graph reachable from all variables is compared: "
     "partition of mutable objects by id() and of every ndarray buffer (state vectors, covariances, metadata arrays) by the object that owns its memory, identity of cloned Frame objects, kinds, keys, labels, error kind, and every "
@@ -116,6 +125,9 @@ NOT_COVERED = [
     "a form change that fails for another reason than an unknown name (an exception inside Form.__call__): no input of the generators reaches one",
     "Cov frame conversions to/from the Hill frame beyond the error kind; numerical content of covariance rotations (C14); the stale _orb_frame of a Cov re-attached to a state in another frame (C14)",
     "Orbit.propagate / Infos caches (C08, C01)",
+    "objects returned by Orbit.propagate / iter / ephem and by Ephem.interpolate / propagate / iter / ephem / copy, and Tle.orbit(): judged by the oracle (identity partition with receiver and stored orbits + every in-place mutation, both "
+    "directions), not in the heap model (the propagator would need a state of its own); Ephem.__getitem__ / __iter__ hand out the stored objects themselves (container access, not a conversion)",
+    "the object Frame.transform returns keeps the OLD Frame under `frame` and carries the new one under the extra key `_frame` (only its values are used by the setters): modelled and compared as it is, not judged",
 ]
 OPEN = [
     "content equality of copies: that a copied / unpickled container holds the same values as the original (an isomorphism of object graphs) is compared exactly by the correspondence, proved only for immutable entries (as_orbit_as_statevector_id) and values (copy_separate_depth1, attachCov_result)",
@@ -127,11 +139,13 @@ OPEN = [
 ]
 RULE = ("correspondence: (a) exhaustive name resolution: every form x every reserved name, alias and two free keys; (b) random sequences of 1-2 constructions (form, frame incl. Hill, Orbit or StateVector, metadata absent / non-empty and nested / "
         "EMPTY containers / empty containers inside non-empty ones, maneuvers, covariance in own/local/other frame) followed by 1-6 operations drawn (weights OP_WEIGHTS) from copy, copy(form), copy(frame), as_orbit, as_statevector, the constructors given "
-        "an existing object, form=, frame= (incl. unknown names, Hill, aliases), frame= made to fail by an unreachable centre or by the EOP 'error' policy, setattr/setitem by name/alias/foreign name/free key, index assignment, cov.frame=, a mere read of "
+        "an existing object, form=, form= with leg k of its route made to raise (fault injection, k over the whole route), Frame.transform called directly, frame= (incl. unknown names, Hill, aliases), frame= made to fail by an unreachable centre or by the EOP 'error' policy, setattr/setitem by name/alias/foreign name/free key, index assignment, cov.frame=, a mere read of "
         "maneuvers, maneuvers.append, append / setitem on metadata containers (also nested, also on keys that are missing or of the wrong type), cov= from values and from the covariance of another object, pickle round trip, copy.deepcopy; targets are "
         "drawn among ALL objects alive (copies of copies); a case is non-trivial when it has >= 2 operations; distinct = distinct request line; cases whose buffers hold non-finite numbers are skipped and counted. oracle: for every converting method "
         "(incl. pickle, copy(same=)) x every in-place mutation (every container reachable from _data, in-place arithmetic, the maneuver list through its getter) x both directions, deep snapshot of the other object, plus the identity partition of the two "
-        "object graphs; every constructor form of Cov / StateVector / Orbit; every failing setter (unknown name, Hill both ways, unreachable centre, EOP error; on the state and on its covariance) from every form; the same operation sequences as the "
+        "object graphs; every constructor form of Cov / StateVector / Orbit; every failing setter (unknown name, Hill both ways, unreachable centre, EOP error; on the state and on its covariance) from every form; failing form changes (frame whose centre has no body from spherical/cylindrical/cartesian to every keplerian-family form; hyperbolic, circular-equatorial and rectilinear states under np.errstate(all=raise) from 4 forms to every form; "
+        "every leg of routes between the ten forms made to raise, through the setter and through copy(form=)); every public method returning a state object (Frame.transform, Form.__call__, Orbit.propagate/iter/ephem, Ephem.interpolate/propagate/iter/ephem/copy, "
+        "Tle.orbit) by identity partition and mutate-one-observe-other; the same operation sequences as the "
         "correspondence judged step by step by the statement (history oracle); name/alias/index on every form; pickle and StateVector<->Orbit round trips")
 
 FRAMES = ["EME2000", "MOD", "TOD", "TEME", "PEF", "ITRF"]
@@ -1344,7 +1358,7 @@ def check_deepcopy(out, rng, spec):
 
 # ---------------------------------------------------------------- oracle: histories
 
-NEW_OBJECT_OPS = {"new", "copy", "copyf", "copyfr", "aso", "assv", "pickle", "ctor", "dcopy"}
+NEW_OBJECT_OPS = {"new", "copy", "copyf", "copyfr", "aso", "assv", "pickle", "ctor", "dcopy", "xform"}
 TRANSFORM_OPS = {"setfr", "setfrx"}
 
 
@@ -1521,9 +1535,73 @@ def live_tables():
             "hill_keys": sorted(hill)}
 
 
+def form_setter_steps():
+    """the order of the effects of `StateVector.form.fset`, read from the AST: 'convert' (a call of the current Form object / of a conversion
+    function: computes on a copy, may raise), 'store' (writes into the object's own buffer, directly or through an alias of it), 'commit'
+    (`self._data['form'] = ...`); the body of a loop is taken twice (a route of at least two legs)"""
+    import ast
+    src = open(os.path.join(core.REPO, "beyond", "orbits", "statevector.py")).read()
+    tree = ast.parse(src)
+    fn = None
+    for cls in tree.body:
+        if isinstance(cls, ast.ClassDef) and cls.name == "StateVector":
+            for f in cls.body:
+                if isinstance(f, ast.FunctionDef) and f.name == "form" and any(ast.unparse(d) == "form.setter" for d in f.decorator_list):
+                    fn = f
+    if fn is None:
+        raise RuntimeError("StateVector.form setter not found")
+    arg = fn.args.args[1].arg
+    body = [st for st in fn.body if not (isinstance(st, ast.Expr) and isinstance(getattr(st, "value", None), ast.Constant))]
+    if not (body and ast.unparse(body[0]) == f"if isinstance({arg}, str):\n    {arg} = get_form({arg})"):
+        raise RuntimeError("form setter: unexpected head")
+    aliases, converters, steps = set(), set(), []
+    own = {"self.view(np.ndarray)", "self"}
+
+    def is_conversion(node):
+        for c in ast.walk(node):
+            if isinstance(c, ast.Call):
+                f = ast.unparse(c.func)
+                if f in ("self._data['form']", "self.form") or f in converters or "_to_" in f:
+                    return True
+        return False
+
+    def walk(stmts):
+        for st in stmts:
+            if isinstance(st, (ast.For, ast.While)):
+                walk(st.body)
+                walk(st.body)
+                continue
+            if isinstance(st, ast.If) or isinstance(st, ast.Try) or isinstance(st, ast.With):
+                raise RuntimeError(f"form setter: `{ast.unparse(st).splitlines()[0]}` is not modelled")
+            if not (isinstance(st, ast.Assign) and len(st.targets) == 1):
+                raise RuntimeError(f"form setter: `{ast.unparse(st)}` is not modelled")
+            tgt, val = st.targets[0], st.value
+            t = ast.unparse(tgt)
+            if isinstance(tgt, ast.Name):
+                if ast.unparse(val) in own:
+                    aliases.add(t)
+                elif isinstance(val, ast.Call) and ast.unparse(val.func) == "getattr":
+                    converters.add(t)
+                elif is_conversion(val):
+                    steps.append("convert")
+                continue
+            if isinstance(tgt, ast.Subscript) and (ast.unparse(tgt.value) in own or ast.unparse(tgt.value) in aliases):
+                if is_conversion(val):
+                    steps.append("convert")
+                steps.append("store")
+                continue
+            if t == "self._data['form']":
+                steps.append("commit")
+                continue
+            raise RuntimeError(f"form setter: `{ast.unparse(st)}` is not modelled")
+    walk(body[1:])
+    return steps
+
+
 def extract(ctx):
     t = live_tables()
     ctx.tables = t
+    t["form_steps"] = form_setter_steps()
     # the same tables read from the source text (AST) as a self-check of the live extraction
     import ast
     src = open(os.path.join(core.REPO, "beyond", "orbits", "forms.py")).read()
@@ -1552,6 +1630,9 @@ def extract(ctx):
            "/-- built-in Earth-centred frames: registry key ↦ `Frame.name` -/",
            f"def frameKeys : List (String × String) := {pairs(t['frame_keys'])}",
            "def hillKeys : List String := [" + ", ".join(map(_lstr, t["hill_keys"])) + "]",
+           "/-- effects of `StateVector.form.fset` in source order, read from the AST of beyond/orbits/statevector.py (convert = the Form object / a conversion function is called: computed on a copy, may raise; "
+           "store = written into the object's buffer; commit = `self._data[\"form\"] = …`; a loop body appears twice) -/",
+           "def formSetterSteps : List String := [" + ", ".join(map(_lstr, t["form_steps"])) + "]",
            "end BeyondVerif.Generated.FormTables"]
     ch = core.write_if_changed(os.path.join(core.LEAN, "BeyondVerif", "Generated", "HeapTables.lean"), "\n".join(out) + "\n")
     return ["Generated/HeapTables.lean"] if ch else []
@@ -1639,6 +1720,13 @@ class Real:
             v.append(Orbit(src, src.date, src.form, src.frame, Kepler()) if a[1] == "1" else StateVector(src, src.date, src.form, src.frame))
         elif name == "setf":
             v[int(a[0])].form = a[1]
+        elif name == "setfx":    # a form change one leg of whose route raises
+            with failing_leg(a[2]):
+                v[int(a[0])].form = a[1]
+        elif name == "xform":    # Frame.transform called directly: a method that returns a new state object
+            from beyond.frames.frames import get_frame
+            sv = v[int(a[0])]
+            v.append(sv.frame.transform(sv, get_frame(a[1])))
         elif name == "setfr":
             v[int(a[0])].frame = a[1]
         elif name == "setfrx":   # a frame assignment made to fail by the environment
@@ -1923,7 +2011,7 @@ SET_NAMES = ["x", "vz", "a", "e", "i", "raan", "Omega", "Ω", "omega", "nu", "ν
 
 
 META_KEYS = ["tags", "nested", "name", "arr", "zz"]
-OP_WEIGHTS = [("copy", 12), ("copyf", 9), ("copyfr", 10), ("aso", 7), ("assv", 5), ("ctor", 3), ("setf", 7), ("setfr", 11), ("setfrx", 4), ("seta", 5), ("seti", 3),
+OP_WEIGHTS = [("copy", 12), ("copyf", 9), ("copyfr", 10), ("aso", 7), ("assv", 5), ("ctor", 3), ("setf", 7), ("setfx", 5), ("xform", 6), ("setfr", 11), ("setfrx", 4), ("seta", 5), ("seti", 3),
               ("covfr", 5), ("readman", 5), ("addman", 5), ("lappend", 4), ("dset", 3), ("nappend", 3), ("aset", 2), ("setcov", 3), ("covfrom", 5), ("pickle", 5)]
 
 
@@ -1951,6 +2039,10 @@ def rand_ops(rng, maxlen=6, dcopy=True):
             op = [name, i, form]
         elif name in ("copyfr", "setfr"):
             op = [name, i, frame]
+        elif name == "setfx":
+            op = [name, i, rng.choice(FORMS), "?", str(rng.randrange(6))]     # the failing leg is fixed by the dry run (resolve_indices)
+        elif name == "xform":
+            op = [name, i, rng.choice(FRAMES + ["Hill"] * (rng.random() < 0.1))]
         elif name == "ctor":
             op = [name, i, str(int(rng.random() < 0.4))]
         elif name == "setfrx":
@@ -2033,6 +2125,14 @@ def resolve_indices(ops, kep):
             op[1] = str(int(op[1]) % max(1, len(real.vars))) if real.vars else "0"
             if op[0] == "covfrom":
                 op[2] = str(int(op[2]) % max(1, len(real.vars))) if real.vars else "0"
+            if op[0] == "setfx":
+                # leg k (mod the number of legs) of the route from the form the object is in at that point; no leg: a plain assignment
+                legs = route_legs(real.vars[int(op[1])]._data["form"].name, op[2]) if real.vars else []
+                if legs:
+                    k = int(op[4]) % len(legs)
+                    op = [op[0], op[1], op[2], legs[k], str(k)]
+                else:
+                    op = ["setf", op[1], op[2]]
         real.run(op)
         fixed.append(op)
     return fixed
